@@ -20,6 +20,10 @@ From Verif Require Auth.Model.
 
 From Verif Require C15Check.
 
+From Verif Require Serial.Model.
+
+From Verif Require Codec.Model.
+
 (* area id -> checker *)
 Definition dispatch (area : N) (v : val) : N :=
   match area with
@@ -38,6 +42,9 @@ Definition dispatch (area : N) (v : val) : N :=
   | 19%N => Modbus.C19Check.check_val v
   | 9%N => Auth.Model.check_val v
   | 15%N => C15Check.check_val v
+  | 17%N => Serial.Model.check_val v
+  | 10%N => Codec.Model.check_val10 v
+  | 11%N => Codec.Model.check_val11 v
   | _ => 98%N
   end.
 
